@@ -9,14 +9,23 @@ open IpaVerif.Util IpaVerif.Sharing IpaVerif.Mac
 /-- order ℓ of the Ristretto group = modulus of `Fp25519` (external primitive: curve25519-dalek `Scalar`). -/
 def ell : Nat := 2 ^ 252 + 27742317777372353535851937790883648493
 
-def primeOf (name : String) : Option Nat :=
+def primeOf1 (name : String) : Option Nat :=
   match IpaVerif.Generated.primeFields.find? (·.name == name) with
   | some P => some P.p
   | none => if name == "Fp25519" then some ell else none
 
-/-- serialized size in bytes -/
+/-- `Fp25519x16` = 16-lane vectors of `Fp25519`: (scalar field name, lanes) -/
+def splitField (name : String) : String × Nat :=
+  match name.splitOn "x" with
+  | [f, n] => (f, (n.toNat?).getD 1)
+  | _ => (name, 1)
+
+def primeOf (name : String) : Option Nat := primeOf1 (splitField name).1
+def lanesOf (name : String) : Nat := (splitField name).2
+
+/-- serialized size in bytes of one field element -/
 def sizeOf (name : String) : Nat :=
-  match IpaVerif.Generated.primeFields.find? (·.name == name) with
+  match IpaVerif.Generated.primeFields.find? (·.name == (splitField name).1) with
   | some P => P.storeBits / 8
   | none => 32
 
@@ -44,8 +53,17 @@ def parseGate (g : String) : Option POp :=
 
 def parseProg (s : String) : Option (List POp) := (s.splitOn ".").mapM parseGate
 
-def parseInputs (s : String) : Option (List (List Nat)) :=
-  (s.splitOn ",").mapM (fun g => (g.splitOn ":").mapM String.toNat?)
+/-- `[record][input][lane]`; lanes are written `l0+l1+…` -/
+def parseInputs (s : String) : Option (List (List (List Nat))) :=
+  (s.splitOn ",").mapM (fun g => (g.splitOn ":").mapM (fun v => (v.splitOn "+").mapM String.toNat?))
+
+/-- the inputs of lane `l` of one record -/
+def laneInputs (rec : List (List Nat)) (l : Nat) : List Nat := rec.map (fun v => v.getD l 0)
+
+/-- `[wire][lane]` from `[lane][wire]` -/
+def transposeLanes (lanes : Nat) (perLane : List (List Nat)) : List (List Nat) :=
+  let nw := (perLane.headD []).length
+  (List.range nw).map (fun k => (List.range lanes).map (fun l => (perLane.getD l []).getD k 0))
 
 /-- spec side: the plaintext values of all wires of one record, plain arithmetic modulo `p`. -/
 def evalPlain (p : Nat) (prog : List POp) (ins : List Nat) : List Nat :=
@@ -60,8 +78,14 @@ def evalPlain (p : Nat) (prog : List POp) (ins : List Nat) : List Nat :=
     | .n i => (ws ++ [(p - w i) % p], ins)
     | .k i c => (ws ++ [(w i * (c % p)) % p], ins)) (([] : List Nat), ins)).1
 
-def showWires (rows : List (List Nat)) : String :=
-  String.intercalate "," (rows.map (fun r => String.intercalate ":" (r.map toString)))
+/-- `[record][wire][lane]` -/
+def showWires (rows : List (List (List Nat))) : String :=
+  String.intercalate "," (rows.map (fun r => String.intercalate ":" (r.map (fun w =>
+    String.intercalate "+" (w.map toString)))))
+
+/-- spec side: all records, all lanes -/
+def evalPlainAll (p lanes : Nat) (prog : List POp) (inputs : List (List (List Nat))) : List (List (List Nat)) :=
+  inputs.map (fun rec => transposeLanes lanes ((List.range lanes).map (fun l => evalPlain p prog (laneInputs rec l))))
 
 /-! ### model side: the share-level model with pseudo-random sharings / masks -/
 
@@ -117,9 +141,13 @@ def runBatch (A : Alg Nat) (p seed batchIdx : Nat) (prog : List POp) (records : 
     some (opened.map (fun ws => ws.map (fun hs => (hs.headD none).getD 0)))
   else none
 
-def runHonest (p rpb seed : Nat) (prog : List POp) (inputs : List (List Nat)) : String :=
+/-- a vectorised record is `lanes` scalar instances sharing the batch's accumulators, each lane with its own random
+coefficient (`accumulateN_T`). -/
+def runHonest (p rpb lanes seed : Nat) (prog : List POp) (inputs : List (List (List Nat))) : String :=
   let A := modAlg p
-  let bat := (chunks rpb inputs).zipIdx.map (fun b => runBatch A p seed b.2 prog b.1)
+  let bat := (chunks rpb inputs).zipIdx.map (fun b =>
+    let flat := b.1.flatMap (fun rec => (List.range lanes).map (fun l => laneInputs rec l))
+    (runBatch A p seed b.2 prog flat).map (fun rows => (chunks lanes rows).map (transposeLanes lanes)))
   if bat.all Option.isSome then
     "ok " ++ showWires (bat.flatMap (fun o => o.getD [])) ++ " mac"
   else "invalid"
@@ -129,7 +157,7 @@ def runHonest (p rpb seed : Nat) (prog : List POp) (inputs : List (List Nat)) : 
 def leftOf (h : Nat) : Nat := (h + 1) % 3 + 1   -- roles 1..3: left of 1 is 3
 def rightOf (h : Nat) : Nat := h % 3 + 1
 
-def chanList (size rpb count : Nat) (prog : List POp) : String :=
+def chanList (size lanes rpb count : Nat) (prog : List POp) : String :=
   let batches := (count + rpb - 1) / rpb
   let toLeft (g : String) (bytes : Nat) := [1, 2, 3].map (fun h => (g, h, leftOf h, bytes))
   let toRight (g : String) (bytes : Nat) := [1, 2, 3].map (fun h => (g, h, rightOf h, bytes))
@@ -137,10 +165,10 @@ def chanList (size rpb count : Nat) (prog : List POp) : String :=
   let perGate := prog.zipIdx.flatMap (fun gi =>
     let k := toString gi.2
     (match gi.1 with
-      | .u => toLeft ("malicious_protocol/u" ++ k ++ "/upgrade") (count * size)
-      | .m _ _ => toLeft ("malicious_protocol/m" ++ k) (count * size) ++
-                  toLeft ("malicious_protocol/m" ++ k ++ "/duplicate_multiply") (count * size)
-      | _ => []) ++ both ("malicious_protocol/o" ++ k) (count * size))
+      | .u => toLeft ("malicious_protocol/u" ++ k ++ "/upgrade") (count * size * lanes)
+      | .m _ _ => toLeft ("malicious_protocol/m" ++ k) (count * size * lanes) ++
+                  toLeft ("malicious_protocol/m" ++ k ++ "/duplicate_multiply") (count * size * lanes)
+      | _ => []) ++ both ("malicious_protocol/o" ++ k) (count * size * lanes))
   let val :=
     (if IpaVerif.Generated.Mac.propagateToRight then toRight else toLeft) "validate/propagate_u_and_w"
         (batches * IpaVerif.Generated.Mac.totalSend * size) ++
@@ -169,6 +197,19 @@ def accOne (A : Alg Nat) (α x m : Nat × Nat) : Nat × Nat :=
   let z : Loc Nat := ⟨A.zero, A.zero, A.zero⟩
   let acc := accumulate A (wld α) ms ⟨z, z⟩
   (acc.u.h1, acc.w.h1)
+
+/-- one call of `accumulate_macs` on one helper for an `N`-lane share: per-lane views `(l, r)`. -/
+def accVec (A : Alg Nat) (αl αr xl xr ml mr : List Nat) : Nat × Nat :=
+  let hs (l r : Nat) : HShare Nat := ⟨l, r⟩
+  let wld (l r : Nat) : World Nat := ⟨hs l r, hs l r, hs l r⟩
+  let lanes := (List.range αl.length).map (fun i =>
+    (wld (αl.getD i 0) (αr.getD i 0),
+      (⟨wld (xl.getD i 0) (xr.getD i 0), wld (ml.getD i 0) (mr.getD i 0)⟩ : MShare Nat)))
+  let z : Loc Nat := ⟨A.zero, A.zero, A.zero⟩
+  let acc := accumulateN A lanes ⟨z, z⟩
+  (acc.u.h1, acc.w.h1)
+
+def plusList (s : String) : Option (List Nat) := (s.splitOn "+").mapM String.toNat?
 
 def specDot (p al ar bl br : Nat) : Nat := ((al + ar) * (bl + br) + (p - (ar * br) % p)) % p
 
@@ -215,17 +256,22 @@ def handle (toks : List String) : Option String :=
       let r := (List.range 31).flatMap (fun bl => (List.range 31).map (fun br =>
         accOne (modAlg p) (al, ar) (bl, br) (br, bl)))
       pure (showNatList (r.map (·.1)) ++ " " ++ showNatList (r.map (·.2)))
+  | ["c04.accv", f, al, ar, xl, xr, ml, mr] => do
+      let p ← primeOf f
+      let (du, dw) := accVec (modAlg p) (← plusList al) (← plusList ar) (← plusList xl) (← plusList xr)
+        (← plusList ml) (← plusList mr)
+      pure (toString du ++ " " ++ toString dw)
   | ["c04.honest", f, rpb, count, seed, prog, inputs] => do
       let p ← primeOf f
       let rpb ← rpb.toNat?; let count ← count.toNat?; let seed ← seed.toNat?
       let prog ← parseProg prog; let inputs ← parseInputs inputs
       if inputs.length ≠ count ∨ rpb = 0 then none else
-      pure (runHonest p rpb seed prog inputs)
+      pure (runHonest p rpb (lanesOf f) seed prog inputs)
   | ["c04.chan", f, rpb, count, _seed, prog, _inputs] => do
       let _ ← primeOf f
       let rpb ← rpb.toNat?; let count ← count.toNat?
       let prog ← parseProg prog
-      if rpb = 0 then none else pure (chanList (sizeOf f) rpb count prog)
+      if rpb = 0 then none else pure (chanList (sizeOf f) (lanesOf f) rpb count prog)
   | "c04.attack" :: _ => some "judge"
   | ["c04.reveal", f, seed, x, ex, at', dest, delta] => do
       let p ← primeOf f
@@ -261,10 +307,20 @@ def oracle (toks : List String) (impl : String) : Option String :=
         let okW := sumMod p dw == (sumMod p a * sumMod p x) % p
         pure (if okU && okW then "holds" else "fails the three contributions do not add up to (sum a)(sum b)")
       | _ => pure "fails malformed response"
+  | ["c04.accv", f, al, ar, xl, xr, ml, mr] => do
+      let p ← primeOf f
+      let al ← plusList al; let ar ← plusList ar; let xl ← plusList xl; let xr ← plusList xr
+      let ml ← plusList ml; let mr ← plusList mr
+      -- every lane with ITS OWN coefficient
+      let idx := List.range al.length
+      let du := sumMod p (idx.map (fun i => specDot p (al.getD i 0) (ar.getD i 0) (ml.getD i 0) (mr.getD i 0)))
+      let dw := sumMod p (idx.map (fun i => specDot p (al.getD i 0) (ar.getD i 0) (xl.getD i 0) (xr.getD i 0)))
+      let want := toString du ++ " " ++ toString dw
+      pure (if impl == want then "holds" else "fails vectorised contribution is not the sum over lanes of (al_i+ar_i)(bl_i+br_i)-ar_i*br_i with per-lane coefficients: expected " ++ want)
   | ["c04.honest", f, _rpb, _count, _seed, prog, inputs] => do
       let p ← primeOf f
       let prog ← parseProg prog; let inputs ← parseInputs inputs
-      let want := "ok " ++ showWires (inputs.map (evalPlain p prog)) ++ " mac"
+      let want := "ok " ++ showWires (evalPlainAll p (lanesOf f) prog inputs) ++ " mac"
       pure (if impl == want then "holds" else "fails honest run does not validate with the plaintext values: expected " ++ (want.take 120).toString)
   | ["c04.attack", f, _rpb, _count, _seed, prog, inputs, _c, _cls, _t, _d, _delta] => do
       let p ← primeOf f
@@ -274,7 +330,7 @@ def oracle (toks : List String) (impl : String) : Option String :=
       else
         -- every message class is covered by `additive_attack_T` / `reveal_two_copies`: an altered message is
         -- accepted with probability <= 3/|F| only, and only fields with |F| >= 2^32 - 5 are sampled
-        let want := "ok " ++ showWires (inputs.map (evalPlain p prog)) ++ " -"
+        let want := "ok " ++ showWires (evalPlainAll p (lanesOf f) prog inputs) ++ " -"
         pure (if impl == want then "fails undetected: the altered message was accepted by every honest helper (opened values unchanged)"
               else "fails changed: honest helpers opened values different from the true ones without aborting")
   | ["c04.reveal", f, _seed, x, ex, at', dest, delta] => do
